@@ -271,11 +271,17 @@ func checkDeferredCancel(c *Ctx, res *report.Result, rule string, f *ssa.Functio
 		// a defer that calls it (directly, or a cell it was stored to)
 		var d *ssa.Defer
 		for _, df := range flow.Defers(f) {
-			v := df.Call.Value
-			if v == cancel || flow.Strip(flow.ResolveLoad(v)) == cancel {
-				d = df
-			}
-			if ld, isLd := v.(*ssa.UnOp); isLd && cellHolds(ld.X, cancel) {
+			if deferRuns(df, func(cc *ssa.CallCommon, outer func(ssa.Value) ssa.Value) bool {
+				if cc.IsInvoke() {
+					return false
+				}
+				v := cc.Value
+				if v == cancel || flow.Strip(flow.ResolveLoad(v)) == cancel || outer(v) == cancel {
+					return true
+				}
+				ld, isLd := v.(*ssa.UnOp)
+				return isLd && cellHolds(ld.X, cancel)
+			}) {
 				d = df
 			}
 		}
